@@ -279,6 +279,7 @@ package impl
 //
 // isDistinct() iff count() = distinct().count()
 //@ func IsDistinct(ctx, input, args) (res, err)
+//@   requires validColl(input)
 //@   ensures len(args) != 0 ==> is(err, ErrWrongArity)
 //@   ensures len(args) == 0 ==> err == nil && (collTV(res) == TV_T || collTV(res) == TV_F)
 //@   assigns nothing
